@@ -409,6 +409,15 @@ class TeX(object):
         if output is None:
             output = self.ownerDocument
 
+        # Parser switches that live on classes (shared by all documents)
+        from plasTeX.Base.TeX.Primitives import MathShift
+        from plasTeX.Base.LaTeX.Lists import List
+        from plasTeX.Base.LaTeX.Math import BeginMath, EndMath
+        enablelevel = ParameterCommand._enablelevel
+        mathdepth = len(MathShift.inEnv)
+        listdepth = List.depth
+        disablemath = BeginMath.disableMath
+
         try:
             for item in tokens:
                 if item.nodeType == Macro.ELEMENT_NODE:
@@ -421,6 +430,14 @@ class TeX(object):
                msg = ' (%s)' % msg.strip()
             log.error('An error occurred while building the document object%s%s', self.lineInfo, msg)
             raise
+        finally:
+            # Input that ends inside math or a list, or an error while an
+            # argument was being read, must not leak into the next document
+            ParameterCommand._enablelevel = enablelevel
+            ParameterCommand.enabled = enablelevel >= 0
+            del MathShift.inEnv[mathdepth:]
+            List.depth = listdepth
+            BeginMath.disableMath = EndMath.disableMath = disablemath
 
         if self.toplevel:
             for order, callbacks in sorted(self.ownerDocument.postParseCallbacks.items()):
